@@ -32,3 +32,41 @@ pub use crate::util::metadata::side_metadata::verif_hooks_global as side_global;
 /// `util::heap::layout` (crate-visible module): the `Mmapper` trait, so that a harness can stand in for the
 /// process-wide mmapper singleton.
 pub use crate::util::heap::layout::Mmapper;
+
+/// `util::rust_util::rev_group` (crate-visible module and types): drivers over slices.
+pub use crate::util::rust_util::rev_group::verif_hooks as rev_group;
+
+/// `policy::sft_map::space_map` (private module): index arithmetic of the 64-bit SFT space map.
+#[cfg(target_pointer_width = "64")]
+pub use crate::policy::sft_map::verif_hooks_space_map as sft_space_map;
+/// `util::heap::layout::map64` (private module).
+#[cfg(target_pointer_width = "64")]
+pub use crate::util::heap::layout::verif_hooks_map64 as map64;
+pub use crate::util::heap::layout::VMMap;
+
+/// `util::{freelist, int_array_freelist, raw_memory_freelist}` (private modules, public items).
+pub use crate::util::verif_hooks_freelist as freelist;
+
+/// `util::object_forwarding` (crate-visible module, public functions).
+pub mod object_forwarding {
+    pub use crate::util::object_forwarding::{
+        attempt_to_forward, clear_forwarding_bits, forward_object, get_forwarding_status,
+        is_forwarded, is_forwarded_or_being_forwarded, read_forwarding_pointer,
+        spin_and_get_forwarded_object, state_is_being_forwarded,
+        state_is_forwarded_or_being_forwarded, write_forwarding_pointer,
+    };
+}
+/// `plan::barriers::ObjectBarrier` private log-bit helpers.
+pub use crate::plan::verif_hooks_barriers as barriers;
+/// `policy::immix::immixspace` hole search on explicit line states.
+pub use crate::policy::immix::immixspace::verif_hooks as immix;
+/// `util::heap::blockpageresource` (crate-visible module): `BlockPool` and a handle on the private `BlockQueue`.
+pub use crate::util::heap::blockpageresource::verif_hooks as block_pool;
+pub use crate::util::heap::monotonepageresource::MonotonePageResource;
+pub use crate::util::heap::pageresource::{
+    CommonPageResource, PRAllocFail, PRAllocResult, PageResource,
+};
+/// `util::heap` page resources and accounting (crate-visible modules, public items).
+pub use crate::util::heap::VerifPageAccounting as PageAccounting;
+/// `util::metadata::mark_bit` (crate-visible module, public type).
+pub use crate::util::metadata::mark_bit::MarkState;
